@@ -105,6 +105,29 @@ VIndex(shape, pts) ==
            cells |-> [j \in 1..L |-> Ravel(shape, [a \in 1..nd |-> NormInt(shape[a], pts[a][j])])],
            err |-> FALSE]
 
+\* x.vindex[c1, c2, ...] where each component is an integer list ("l") or a single integer ("i",
+\* broadcast against the lists): pointwise selection, one output cell per list position
+VIndexC(shape, comps) ==
+  LET nd    == Len(shape)
+      lists == {a \in DOMAIN comps : comps[a].k = "l"}
+      L     == IF lists = {} THEN 0 ELSE Len(comps[CHOOSE a \in lists : TRUE].v)
+      at(a, j) == IF comps[a].k = "l" THEN comps[a].v[j] ELSE comps[a].i
+      ok == /\ Len(comps) = nd /\ lists # {}
+            /\ \A a \in lists : Len(comps[a].v) = L
+            /\ \A a \in 1..nd : comps[a].k \in {"l", "i"} /\ \A j \in 1..L : IntOK(shape[a], at(a, j))
+            /\ \A a \in 1..nd : comps[a].k = "i" => IntOK(shape[a], comps[a].i)
+  IN IF ~ok THEN [shape |-> <<>>, cells |-> <<>>, err |-> TRUE]
+     ELSE [shape |-> <<L>>,
+           cells |-> [j \in 1..L |-> Ravel(shape, [a \in 1..nd |-> NormInt(shape[a], at(a, j))])],
+           err |-> FALSE]
+
+\* x[mask] with a boolean mask of the full shape of x (flat row-major 0/1 sequence): the selected
+\* cells in row-major order, as a 1-d array
+MaskResult(shape, mask) ==
+  IF Len(mask) # Size(shape) THEN [shape |-> <<>>, cells |-> <<>>, err |-> TRUE]
+  ELSE LET sel == SelectSeq([j \in 1..Len(mask) |-> j - 1], LAMBDA p : mask[p + 1] = 1)
+       IN [shape |-> <<Len(sel)>>, cells |-> sel, err |-> FALSE]
+
 \* x.blocks[b1, b2, ...]: components select *blocks*; every axis is kept
 RECURSIVE Concat(_)
 Concat(ss) == IF ss = <<>> THEN <<>> ELSE Head(ss) \o Concat(Tail(ss))
